@@ -387,6 +387,9 @@ pub enum Expr {
     Fail,
     Todo,
     Trace(String, Rc<Expr>),
+    /// `trace @"msg": operand` followed by the continuation; the operand (an Int expression)
+    /// is part of the message and is evaluated only in builds that keep the trace
+    TraceArg(Rc<Expr>, Rc<Expr>),
     TraceIfFalse(Rc<Expr>),
     AndBlock(Vec<Expr>),
     OrBlock(Vec<Expr>),
@@ -520,6 +523,7 @@ pub fn show(e: &Expr) -> String {
         Expr::Fail => "{\nfail\n}".into(),
         Expr::Todo => "{\ntodo\n}".into(),
         Expr::Trace(m, b) => format!("{{\ntrace @\"{}\"\n{}\n}}", m, show(b)),
+        Expr::TraceArg(a, b) => format!("{{\ntrace @\"msg\": {}\n{}\n}}", show(a), show(b)),
         Expr::TraceIfFalse(a) => format!("{}?", show_atom(a)),
         Expr::AndBlock(xs) => format!("and {{\n{}\n}}", xs.iter().map(|x| format!("{},", show(x))).collect::<Vec<_>>().join("\n")),
         Expr::OrBlock(xs) => format!("or {{\n{}\n}}", xs.iter().map(|x| format!("{},", show(x))).collect::<Vec<_>>().join("\n")),
@@ -649,6 +653,7 @@ pub fn occurs(x: &str, e: &Expr) -> bool {
         Expr::Int(_) | Expr::Bool(_) | Expr::Bytes(_) | Expr::Void | Expr::Fail | Expr::Todo => false,
         Expr::Bin(_, a, b) | Expr::MkPair(a, b) => o(a) || o(b),
         Expr::Not(a) | Expr::Neg(a) | Expr::TraceIfFalse(a) | Expr::ToData(a, _) | Expr::Field(a, ..) | Expr::TupleIdx(a, _) | Expr::Trace(_, a) => o(a),
+        Expr::TraceArg(a, b) => o(a) || o(b),
         Expr::If(c, t, f) => o(c) || o(t) || o(f),
         Expr::When(s, cs) => {
             o(s) || cs.iter().any(|(p, b)| {
@@ -961,6 +966,10 @@ impl<'a> Interp<'a> {
                 self.traces.push(m.clone());
                 self.eval(b, env)?
             }
+            // reference semantics of the *silent* build (the one C01 compiles): the trace and
+            // its operand are erased.  What the other builds do with the operand is C14's
+            // question (see D12).
+            Expr::TraceArg(_, b) => self.eval(b, env)?,
             Expr::TraceIfFalse(a) => Val::Bool(self.boolean(a, env)?),
             Expr::AndBlock(xs) => {
                 for x in xs {
